@@ -297,8 +297,12 @@ void determineUnitRangesLoopGraph(GraphTy& graph, uint32_t unitsToSplit,
 
     galois::gDebug("LoopGraph Unit ", i, " gets nodes ", returnRanges[i],
                    " to ", returnRanges[i + 1], ", num edges is ",
-                   graph.edge_end(returnRanges[i + 1] - 1) -
-                       graph.edge_begin(returnRanges[i]));
+                   // an empty unit may sit at numNodes, which has no edges to
+                   // look up (the arguments are evaluated in release builds too)
+                   returnRanges[i] == returnRanges[i + 1]
+                       ? 0
+                       : graph.edge_end(returnRanges[i + 1] - 1) -
+                             graph.edge_begin(returnRanges[i]));
   }
 }
 
